@@ -80,6 +80,17 @@ def gen_cases(tier, seed):
                               'chunk': 'all',
                               'stride': 1 if tier == 'thorough' else 3,
                               'cseed': 11})
+    # directed: the application gives up on an open that is never answered,
+    # then the connection ends one way or another
+    for kind in ('process', 'cb_session', 'run'):
+        for ending in ('close_then_wait', 'peer_close', 'abort', 'none'):
+            cases.append({'chans': [{'kind': kind, 'srv': 'slow_open',
+                                     'acts': ['write'], 'window': None,
+                                     'pause': False, 'open_timeout': True}],
+                          'ending': ending, 'concurrent': True,
+                          'end_when': 'done', 'chunk': 'all',
+                          'stride': 1 if tier == 'thorough' else 3,
+                          'cseed': 13})
     # directed: drain() blocked by a peer that stopped reading, which then
     # sends EOF and/or closes
     for kind in ('process', 'tcp'):
@@ -106,7 +117,9 @@ def gen_cases(tier, seed):
                           # a small receive window makes the stream layer
                           # pause reading with data still queued
                           'window': rng.choice([None, None, 4096, 64]),
-                          'pause': rng.random() < 0.2})
+                          'pause': rng.random() < 0.2,
+                          'open_timeout': srv == 'slow_open' and
+                          rng.random() < 0.6})
         cases.append({'chans': chans, 'ending': rng.choice(ENDINGS),
                       'concurrent': rng.random() < 0.6,
                       'end_when': rng.choice(['now', 'settled', 'settled',
@@ -313,9 +326,15 @@ async def _client_channel(ctx, tr, conn, i, spec, rng):
     data = 'x' * 50
     big = 'y' * 70000
 
+    def opener(coro):
+        # an application that gives up on an open the peer never answers
+        if spec.get('open_timeout'):
+            return asyncio.wait_for(coro, 0.01)
+        return coro
+
     try:
         if kind == 'run':
-            await tr.call(f'run{i}', conn.run(f'c{i}', input=data))
+            await tr.call(f'run{i}', opener(conn.run(f'c{i}', input=data)))
             return
         if kind == 'sftp':
             sftp = await tr.call(f'start_sftp{i}', conn.start_sftp_client())
@@ -331,24 +350,24 @@ async def _client_channel(ctx, tr, conn, i, spec, rng):
                     await tr.call(f'sftp_stat{i}', sftp.stat('.'))
             return
         if kind == 'tcp':
-            r, w = await tr.call(f'open_connection{i}',
-                                 conn.open_connection('dest.example', 7))
+            r, w = await tr.call(f'open_connection{i}', opener(
+                conn.open_connection('dest.example', 7)))
             chan = w.channel
             reader, writer = r, w
         elif kind == 'process':
             kw = {'window': spec['window']} if spec.get('window') else {}
-            proc = await tr.call(f'create_process{i}',
-                                 conn.create_process(f'c{i}', **kw))
+            proc = await tr.call(f'create_process{i}', opener(
+                conn.create_process(f'c{i}', **kw)))
             chan = proc.channel
             reader, writer = proc.stdout, proc.stdin
         else:
             kw = {'window': spec['window']} if spec.get('window') else {}
             chan, sess = await tr.call(
-                f'create_session{i}',
-                conn.create_session(lambda: apps.RecClientSession(
-                    ctx['log'], f'c{i}',
-                    [(1, None)] if spec.get('pause') else None),
-                    f'c{i}', **kw))
+                f'create_session{i}', opener(
+                    conn.create_session(lambda: apps.RecClientSession(
+                        ctx['log'], f'c{i}',
+                        [(1, None)] if spec.get('pause') else None),
+                        f'c{i}', **kw)))
             ctx['csessions'].append(sess)
             reader = writer = None
 
@@ -383,7 +402,7 @@ async def _client_channel(ctx, tr, conn, i, spec, rng):
                     chan.close()
                     await tr.call(f'wait_closed{i}', chan.wait_closed(), chan)
     except (OSError, asyncssh.Error, asyncio.IncompleteReadError,
-            asyncio.CancelledError):
+            asyncio.CancelledError, asyncio.TimeoutError):
         pass
 
 
